@@ -41,26 +41,37 @@ def _shapes(tier):
 
 
 def jobs(tier, seed):
-    return [dict(name=f"matrices-S{S}A{A}E{E}-d{ds}{da}{de}-pa{int(pa)}", devices=1, cost=S * S * A * E, seed=seed,
-                 cfg=dict(S=S, A=A, E=E, ds=ds, da=da, de=de, offset=0, prob_array=pa)) for (S, A, E, ds, da, de, pa) in _shapes(tier)]
+    out = [dict(name=f"matrices-S{S}A{A}E{E}-d{ds}{da}{de}-pa{int(pa)}", devices=1, cost=S * S * A * E, seed=seed,
+                cfg=dict(S=S, A=A, E=E, ds=ds, da=da, de=de, offset=0, prob_array=pa)) for (S, A, E, ds, da, de, pa) in _shapes(tier)]
+    # the builder called a second time on the same problem object, with another (symbolic) tolerance
+    out.append(dict(name="second-call-S2A2E2", devices=1, cost=60, seed=seed, second_call=True,
+                    cfg=dict(S=2, A=2, E=2, ds=1, da=1, de=1, offset=0, prob_array=False)))
+    return out
 
 
 def run_job(job):
     ob = Obligations(job)
     cfg = job["cfg"]
     S, A, E = cfg["S"], cfg["A"], cfg["E"]
-    pb = kit.make_tab(cfg, job.get("seed", 0))
-    conc = {k: np.asarray(getattr(pb, k)) for k in ("T", "R", "P")}
-    tol = z3.Real("tol")
+    pb0 = kit.make_tab(cfg, job.get("seed", 0))
+    conc = {k: np.asarray(getattr(pb0, k)) for k in ("T", "R", "P")}
+    tol, tol1 = z3.Real("tol"), z3.Real("tol1")
     ex = pathx.Explorer(catch=(Exception,))
     holder = {}
 
     def run():
+        pb = kit.make_tab(cfg, job.get("seed", 0))   # a fresh object per explored path
         with symbolic():
             L = kit.Lifted(pb)
             holder["L"] = L
             pathx.CUR.assume(z3.And(*(L.pre + [tol >= 0, tol < 1])))
             from ..trace import lift
+            if job.get("second_call"):
+                pathx.CUR.assume(z3.And(tol1 >= 0, tol1 < 1))
+                try:
+                    pb.build_transition_and_reward_matrices(normalization_tolerance=lift(tol1))
+                except ValueError:
+                    pass
             Pm, Rm = pb.build_transition_and_reward_matrices(normalization_tolerance=lift(tol))
             return val_of(Pm), val_of(Rm)
     paths = {"return": 0, "raise": 0}
@@ -74,6 +85,8 @@ def run_job(job):
         def cexf(m, extra=None):
             d = dict(cfg=cfg, T=kit.model_array(m, L.T), R=kit.model_array(m, L.R), P=kit.model_array(m, L.P),
                      tol=zx.model_value(m, tol))
+            if job.get("second_call"):
+                d["tol1"] = zx.model_value(m, tol1)
             d.update(extra or {})
             return d
         if o.exc is not None:
@@ -134,13 +147,13 @@ def run_job(job):
     ob.extra["paths"] = paths["return"] + paths["raise"]
     # E7b: concrete differential
     for k in ("T", "R", "P"):
-        setattr(pb, k, jnp.asarray(conc[k]))
+        setattr(pb0, k, jnp.asarray(conc[k]))
     jax.clear_caches()
-    ref_P, ref_R = numpy_matrices(pb)
-    conc_cex = dict(cfg=cfg, T=np.asarray(jax.vmap(jax.vmap(jax.vmap(pb.state_to_index)))(pb.T)), R=conc["R"], P=conc["P"], tol=1e-4,
+    ref_P, ref_R = numpy_matrices(pb0)
+    conc_cex = dict(cfg=cfg, T=np.asarray(jax.vmap(jax.vmap(jax.vmap(pb0.state_to_index)))(pb0.T)), R=conc["R"], P=conc["P"], tol=1e-4,
                     kind="concrete")
     try:
-        Pc, Rc = pb.build_transition_and_reward_matrices()
+        Pc, Rc = pb0.build_transition_and_reward_matrices()
         agree = np.allclose(Pc, ref_P, atol=1e-12) and np.allclose(Rc, ref_R, atol=1e-12)
     except Exception:
         agree = False
@@ -194,6 +207,11 @@ def replay(data):
                 raw[a, s, T[s, a, e]] += P[s, a, e]
     dev = np.abs(raw.sum(-1) - 1.0)
     should_raise = dev.max() > tol
+    if c.get("tol1") is not None:
+        try:   # the call that preceded the one under test, on the same object
+            pb.build_transition_and_reward_matrices(normalization_tolerance=float(c["tol1"]))
+        except ValueError:
+            pass
     try:
         Pm, Rm = pb.build_transition_and_reward_matrices(normalization_tolerance=tol)
         raised = None
